@@ -6,3 +6,5 @@ CONSTANTS
  Datas = {"d0", "d1", "d2", "d3"}
  Prefixes <- SimPrefixes
  MaxOps = 0
+ Styles = {"write", "nowrite", "copy"}
+ EmptyData = "d0"
